@@ -602,6 +602,13 @@ C13_contracts(c, G, o) ==
         IN /\ e.b = (IF o.clk - 1 >= et THEN 1 ELSE 0)
            /\ e.c = (IF o.clk - 1 >= it THEN 1 ELSE 0)
 
+(* Interpreter.execute(max_steps) is repeated execute_once: same macro steps, same effects, as the   *)
+(* twin run that calls execute_once itself; never more than max_steps macro steps (o.eidx of them)   *)
+C19_execute(c, G, o) ==
+  o.op = "execute" =>
+    /\ (o.ev > 0 => o.eidx <= o.ev)
+    /\ (o.ref.rel = "execute" => RefEq(o))
+
 -----------------------------------------------------------------------------
 (* The set of failing clauses, as <<property, clause>> pairs                *)
 Check(name, ok) == IF ok THEN {} ELSE {name}
@@ -654,6 +661,7 @@ Bad(c, G, o) ==
     Check(<<"C18", "fork">>, Rel("fork", o)),
     Check(<<"C18", "undisturbed">>, Rel("undisturbed", o)),
     Check(<<"C19", "testing">>, C19_testing(c, G, o)),
+    Check(<<"C19", "execute">>, C19_execute(c, G, o)),
     Check(<<"C13", "frozen">>, C13_frozen(c, G, o)),
     Check(<<"C13", "onlyexec">>, C13_only_exec(c, G, o)),
     Check(<<"C13", "guards">>, C13_guards(c, G, o)),
